@@ -20,22 +20,29 @@ type c07log struct {
 	mu       sync.Mutex
 	sending  []Header // headers about to be written, in order
 	handled  int      // keep-alives whose handler returned
+	other    int      // other inbound messages processed
 	panicked []uint32 // ids of keep-alives whose handler panicked (queue full: dropped)
 }
 
 func (l *c07log) ReceivedMsg(Header, VersionNum) {}
-func (l *c07log) MsgUnhandled(Header)            {}
+func (l *c07log) MsgUnhandled(Header) {
+	l.mu.Lock()
+	l.other++
+	l.mu.Unlock()
+}
 func (l *c07log) SendingMsg(h Header) {
 	l.mu.Lock()
 	l.sending = append(l.sending, h)
 	l.mu.Unlock()
 }
 func (l *c07log) MsgHandled(h Header) {
+	l.mu.Lock()
 	if h.typ == MsgKeepAlive {
-		l.mu.Lock()
 		l.handled++
-		l.mu.Unlock()
+	} else {
+		l.other++
 	}
+	l.mu.Unlock()
 }
 func (l *c07log) HandlerPanic(h Header, _ error) {
 	l.mu.Lock()
@@ -44,6 +51,8 @@ func (l *c07log) HandlerPanic(h Header, _ error) {
 }
 func (l *c07log) nSending() int { l.mu.Lock(); defer l.mu.Unlock(); return len(l.sending) }
 func (l *c07log) nHandled() int { l.mu.Lock(); defer l.mu.Unlock(); return l.handled }
+func (l *c07log) nOther() int   { l.mu.Lock(); defer l.mu.Unlock(); return l.other }
+func (l *c07log) nDropped() int { l.mu.Lock(); defer l.mu.Unlock(); return len(l.panicked) }
 
 func waitFor(d time.Duration, cond func() bool) bool {
 	end := time.Now().Add(d)
@@ -178,6 +187,13 @@ func c07script(ver int, evs []string) string {
 		}
 		return true
 	}
+	offered, kaSent := 0, 0
+	// settle: the write loop makes maximal progress — it takes every acknowledgement not dropped and every request
+	// offered (unless it is parked after CloseConnection) — and the peer receives all of it
+	settle := func(d time.Duration) bool {
+		ok := waitFor(d, func() bool { return s.lg.nSending() >= offered+kaSent-s.lg.nDropped() && len(s.c.ackQueue) == 0 })
+		return syncFrames(d) && ok
+	}
 	for k, ev := range evs {
 		switch ev[0] {
 		case 'S':
@@ -186,9 +202,16 @@ func c07script(ver int, evs []string) string {
 		case 'R':
 			s.g.resume()
 			stalled, inflight = false, false
-			// the write loop makes maximal progress before the next event: the queue drains
-			waitFor(time.Second, func() bool { return len(s.c.ackQueue) == 0 })
-			syncFrames(time.Second)
+			settle(time.Second)
+		case 'm':
+			var typ int
+			var id uint32
+			fmt.Sscanf(ev[1:], "%d:%d", &typ, &id)
+			o0 := s.lg.nOther()
+			s.psend(vframe{ver: ver, typ: typ, id: id})
+			if !waitFor(3*time.Second, func() bool { return s.lg.nOther() > o0 }) {
+				note = fmt.Sprintf(" unprocessed@%d", k)
+			}
 		case 'k':
 			id, _ := strconv.ParseUint(ev[1:], 10, 32)
 			h0, s0 := s.lg.nHandled(), s.lg.nSending()
@@ -200,10 +223,10 @@ func c07script(ver int, evs []string) string {
 				note = fmt.Sprintf(" unhandled@%d", k)
 				break
 			}
+			kaSent++
 			if !stalled {
 				// the write loop is free: it takes the acknowledgement now (unless the loop is parked)
-				waitFor(300*time.Millisecond, func() bool { return s.lg.nSending() > s0 && len(s.c.ackQueue) == 0 })
-				syncFrames(time.Second)
+				settle(300 * time.Millisecond)
 			} else if !inflight {
 				// the write loop takes this acknowledgement and blocks writing it
 				if waitFor(300*time.Millisecond, func() bool { return s.lg.nSending() > s0 }) {
@@ -225,13 +248,19 @@ func c07script(ver int, evs []string) string {
 					s.c.SendNoWait(ctx, m)
 				}
 			}()
+			offered++
+			if stalled && inflight {
+				// the write loop is blocked: this caller waits at sendQueue until the peer resumes
+				time.Sleep(20 * time.Millisecond)
+				break
+			}
 			if !waitFor(3*time.Second, func() bool { return s.lg.nSending() > s0 }) {
 				note = fmt.Sprintf(" not-taken@%d", k)
 				break
 			}
 			if stalled {
 				inflight = true
-			} else if !syncFrames(3 * time.Second) {
+			} else if !settle(3 * time.Second) {
 				note = fmt.Sprintf(" timeout@%d", k)
 			}
 		}
@@ -491,29 +520,35 @@ func TestVerifC07(t *testing.T) {
 		evs = append(evs, "R", "k5", "r3:1:1:0")
 		script(1, evs...)
 	}
+	// 4b. priority: requests wait at sendQueue while acknowledgements are queued; when the peer resumes every queued
+	// acknowledgement goes out before any waiting request
+	for n := 1; n <= 5; n++ {
+		evs := []string{"S", "r2:9:1:1"}
+		for i := 0; i < n; i++ {
+			evs = append(evs, fmt.Sprintf("k%d", 500+i))
+		}
+		evs = append(evs, "r3:2:2:1", "r1:0:0:0", "R", "k9")
+		script(1, evs...)
+	}
+	script(1, "S", "k1", "r2:9:1:1", "k2", "k3", "r3:1:1:1", "k4", "k5", "k6", "R")
+	// 4c. other inbound messages are never acknowledged
+	script(1, "m61:5", "k1", "m63:6", "m20:1", "m4:2", "k2", "m100:3", "m72:9", "m1023:4")
 	if vthorough() {
 		for i := 0; i < 30; i++ {
 			var evs []string
 			st := false
-			infl := false
 			for k := 0; k < 14; k++ {
 				switch x := rng.intn(10); {
 				case x < 5:
 					evs = append(evs, rid())
-					if st {
-						infl = true
-					}
-				case x < 7 && !(st && infl):
+				case x < 7:
 					evs = append(evs, fmt.Sprintf("r%d:%d:%d:%d", 1+rng.intn(13), rng.intn(500), rng.intn(256), rng.intn(2)))
-					if st {
-						infl = true
-					}
 				case x == 7 && !st:
 					evs = append(evs, "S")
 					st = true
 				case x == 8 && st:
 					evs = append(evs, "R")
-					st, infl = false, false
+					st = false
 				}
 			}
 			script(1, evs...)
